@@ -249,7 +249,9 @@ func runEncoderProps(r *Run, prop string) {
 	if prop == "C01" {
 		c10LargePointee(r) // values above 64 KiB behind pointers, banks closed and recycled record by record
 		c01EveryBlockLength(r, true)
+		c01WideMapValues(r)
 	} else {
+		c02NilCollectionPointers(r)
 		// C02 speaks of every file the encoder or the file writer produces: the FileWriter used
 		// directly (empty blocks, blocks at varint boundaries, AppendHeader behind a prefix)
 		c09FileWriterDirect(r, false)
